@@ -95,6 +95,10 @@ class RequestResponse(Generic[ResponseBodyT]):
             )
         return self._response
 
+    def abort(self) -> None:
+        """Stop waiting for the response - `request()` raises RequestResponseError."""
+        self._response_received_event.set()
+
     async def _send_request(self) -> None:
         """Build knxipframe (within derived class) and send via transport."""
         self._transport.send(self._create_knxipframe())
